@@ -387,19 +387,22 @@ func (p *wkbParser) parseGeometryCollection(ctype CoordinatesType) (GeometryColl
 	if err := p.checkCount(n, 5); err != nil {
 		return GeometryCollection{}, err
 	}
-	geoms := make([]Geometry, n)
+	// The count is not used to pre-allocate: collections nest, and a claimed
+	// count at every level would add up to far more than the input's size.
+	var geoms []Geometry
 	for i := uint32(0); i < n; i++ {
-		geoms[i], err = p.inner()
+		g, err := p.inner()
 		if err != nil {
 			return GeometryCollection{}, err
 		}
-		if geoms[i].CoordinatesType() != ctype {
+		if g.CoordinatesType() != ctype {
 			err := mismatchedGeometryCollectionDimsError{
 				ctype,
-				geoms[i].CoordinatesType(),
+				g.CoordinatesType(),
 			}
 			return GeometryCollection{}, err
 		}
+		geoms = append(geoms, g)
 	}
 	return NewGeometryCollection(geoms), nil
 }
